@@ -111,7 +111,7 @@ def loopAlone : Nat → Srv → Nat → Option Nat
     | e :: _ => (step false s e).bind fun s' => loopAlone fuel s' (k + 1)
 
 def respLen (p : Char) (i : Nat) : Nat :=
-  if p == 'i' ∨ p == 'h' then 2 else if p == 'r' then 5 + (toString i).length else if p == 'b' then 7 else 6 * 1024 * 1024
+  if p.toLower == 'i' ∨ p.toLower == 'h' then 2 else if p == 'r' then 5 + (toString i).length else if p == 'b' then 7 else 6 * 1024 * 1024
 
 /-- c13 `<n> <phases> <delay>` -/
 def handleShutdown (args : List String) (obs : String) : String :=
@@ -128,8 +128,8 @@ def handleShutdown (args : List String) (obs : String) : String :=
         | some k => k ≤ 3
         | none => false
       let conn := fun (p : Char) (i : Nat) =>
-        let c0 : ConnSt := if p == 'i' ∨ p == 'h' then ⟨.waiting, 0⟩ else ⟨.serving, 0⟩
-        let evs : List CEv := (if p == 'i' ∨ p == 'h' then [CEv.request] else []) ++ [.respond, .loopTop]
+        let c0 : ConnSt := if p.toLower == 'i' ∨ p.toLower == 'h' then ⟨.waiting, 0⟩ else ⟨.serving, 0⟩
+        let evs : List CEv := (if p.toLower == 'i' ∨ p.toLower == 'h' then [CEv.request] else []) ++ [.respond, .loopTop]
         match crun true c0 evs with
         | some c1 =>
           let first := if c1.responses == 1 then s!"200/{respLen p i}" else "closed"
